@@ -43,6 +43,14 @@ import (
 // vc01Handler is the reference handler H as a dnsserver.Handler.
 func vc01Handler() Handler {
 	return HandlerFunc(func(ctx context.Context, rw ResponseWriter, req *dns.Msg) error {
+		// Like the handlers of the real stack (dnssvc), depend on the server and
+		// request information and on the writer's addresses; a missing one
+		// panics there as it does here.
+		si, ri := MustServerInfoFromContext(ctx), MustRequestInfoFromContext(ctx)
+		if si.Proto == ProtoInvalid || ri.StartTime.IsZero() || rw.LocalAddr() == nil || rw.RemoteAddr() == nil {
+			panic(fmt.Sprintf("vc01: incomplete request context: %+v %+v", si, ri))
+		}
+
 		resp, mode := ref.Ref(req)
 		switch mode {
 		case ref.ModeError:
@@ -64,6 +72,74 @@ var (
 
 func vc01Base(name string) ConfigBase {
 	return ConfigBase{Name: name, Addr: "127.0.0.1:0", Handler: vc01Handler()}
+}
+
+// vc01Poison is a Disposer that, like the production one (dnsmsg.Cloner), takes
+// the message apart: whoever still uses a disposed response sends garbage.
+type vc01Poison struct{}
+
+func (vc01Poison) Dispose(resp *dns.Msg) {
+	if resp == nil {
+		return
+	}
+
+	resp.Id ^= 0xa5a5
+	resp.Rcode = 15
+	resp.Question, resp.Answer, resp.Ns, resp.Extra = nil, nil, nil, nil
+}
+
+// vc01Metrics is a MetricsListener that, like the production one, reads the
+// request and the response it is given, and records recovered panics.
+type vc01Metrics struct {
+	EmptyMetricsListener
+
+	mu   sync.Mutex
+	errs []string
+}
+
+func (m *vc01Metrics) note(format string, a ...any) {
+	m.mu.Lock()
+	defer m.mu.Unlock()
+
+	if len(m.errs) < 8 {
+		m.errs = append(m.errs, fmt.Sprintf(format, a...))
+	}
+}
+
+func (m *vc01Metrics) OnRequest(_ context.Context, info *QueryInfo, rw ResponseWriter) {
+	switch {
+	case info == nil || info.Request == nil || rw == nil:
+		m.note("OnRequest without request or writer: %+v", info)
+	case info.Response != nil && (info.Response.Id != info.Request.Id || !info.Response.Response):
+		m.note("OnRequest was given response id %d qr=%t for request id %d (disposed or foreign message)", info.Response.Id, info.Response.Response, info.Request.Id)
+	case info.Response != nil && len(info.Request.Question) > 0 && (len(info.Response.Question) != 1 || info.Response.Question[0] != info.Request.Question[0]):
+		m.note("OnRequest was given response question %v for request question %v", info.Response.Question, info.Request.Question)
+	}
+}
+
+func (m *vc01Metrics) OnPanic(_ context.Context, v any) {
+	m.note("recovered panic in the server: %v", v)
+}
+
+func (m *vc01Metrics) take() (errs []string) {
+	m.mu.Lock()
+	defer m.mu.Unlock()
+
+	errs, m.errs = m.errs, nil
+
+	return errs
+}
+
+// vc01RealBase is the configuration the way the real stack sets it: a
+// recycling disposer, a reading metrics listener, request contexts with a
+// deadline.
+func vc01RealBase(name string, m *vc01Metrics) ConfigBase {
+	c := vc01Base(name)
+	c.Disposer = vc01Poison{}
+	c.Metrics = m
+	c.RequestContext = NewTimeoutContextConstructor(time.Minute)
+
+	return c
 }
 
 // ---------------------------------------------------------------------------
@@ -190,12 +266,26 @@ func (c *vc01PacketConn) Close() error                     { return nil }
 
 type vc01Conn struct {
 	mu     sync.Mutex
+	chunk  int // 0: unlimited
 	in     *bytes.Reader
 	out    bytes.Buffer
 	closed bool
 }
 
-func (c *vc01Conn) Read(p []byte) (int, error) { return c.in.Read(p) }
+func (c *vc01Conn) Read(p []byte) (int, error) {
+	c.mu.Lock()
+	closed := c.closed
+	c.mu.Unlock()
+	if closed {
+		return 0, net.ErrClosed
+	}
+
+	if c.chunk > 0 && len(p) > c.chunk {
+		p = p[:c.chunk]
+	}
+
+	return c.in.Read(p)
+}
 func (c *vc01Conn) Write(p []byte) (int, error) {
 	c.mu.Lock()
 	defer c.mu.Unlock()
@@ -275,6 +365,7 @@ func (w *vc01CryptRW) WriteMsg(m *dns.Msg) error {
 
 // vc01Fixture holds one not-started server of every kind.
 type vc01Fixture struct {
+	metrics  *vc01Metrics
 	dns      *ServerDNS
 	dot      *ServerTLS
 	doh      *httpHandler
@@ -283,12 +374,13 @@ type vc01Fixture struct {
 }
 
 func vc01NewFixture() *vc01Fixture {
-	f := &vc01Fixture{}
-	f.dns = NewServerDNS(ConfigDNS{ConfigBase: vc01Base("verif-c01-dns"), MaxUDPRespSize: dns.MaxMsgSize})
-	f.dot = NewServerTLS(ConfigTLS{ConfigDNS: ConfigDNS{ConfigBase: vc01Base("verif-c01-dot")}})
-	f.doh = &httpHandler{srv: NewServerHTTPS(ConfigHTTPS{ConfigBase: vc01Base("verif-c01-doh")}), localAddr: vc01LocalTCP}
-	f.doq = NewServerQUIC(ConfigQUIC{ConfigBase: vc01Base("verif-c01-doq")})
-	f.dnscrypt = &dnsCryptHandler{srv: NewServerDNSCrypt(ConfigDNSCrypt{ConfigBase: vc01Base("verif-c01-dnscrypt")})}
+	f := &vc01Fixture{metrics: &vc01Metrics{}}
+	m := f.metrics
+	f.dns = NewServerDNS(ConfigDNS{ConfigBase: vc01RealBase("verif-c01-dns", m), MaxUDPRespSize: dns.MaxMsgSize})
+	f.dot = NewServerTLS(ConfigTLS{ConfigDNS: ConfigDNS{ConfigBase: vc01RealBase("verif-c01-dot", m)}})
+	f.doh = &httpHandler{srv: NewServerHTTPS(ConfigHTTPS{ConfigBase: vc01RealBase("verif-c01-doh", m)}), localAddr: vc01LocalTCP}
+	f.doq = NewServerQUIC(ConfigQUIC{ConfigBase: vc01RealBase("verif-c01-doq", m)})
+	f.dnscrypt = &dnsCryptHandler{srv: NewServerDNSCrypt(ConfigDNSCrypt{ConfigBase: vc01RealBase("verif-c01-dnscrypt", m)})}
 	// The serving loops test isStarted between messages; the servers are never
 	// listening here.
 	return f
@@ -306,12 +398,21 @@ func (f *vc01Fixture) udp(wire []byte) (r ref.Result, err error) {
 	return ref.Result{Msgs: pc.out}, nil
 }
 
-func (f *vc01Fixture) tcp(s *ServerDNS, wire []byte) (r ref.Result, err error) {
-	in := binary.BigEndian.AppendUint16(nil, uint16(len(wire)))
-	conn := &vc01Conn{in: bytes.NewReader(append(in, wire...))}
+// tcp feeds stream (complete frames, or a frame cut short by FIN) to one
+// accepted connection of s the way serveTCPConn does: message after message
+// until the read fails.
+func (f *vc01Fixture) tcp(s *ServerDNS, stream []byte, chunk int) (r ref.Result, err error) {
+	conn := &vc01Conn{in: bytes.NewReader(stream), chunk: chunk}
 	wg := &sync.WaitGroup{}
-	if err = s.acceptTCPMsg(conn, wg, &sync.Mutex{}, time.Minute, syncutil.EmptySemaphore{}); err != nil {
-		return r, fmt.Errorf("acceptTCPMsg: %w", err)
+	writeMu := &sync.Mutex{}
+	for {
+		if aerr := s.acceptTCPMsg(conn, wg, writeMu, time.Minute, syncutil.EmptySemaphore{}); aerr != nil {
+			if !errors.Is(aerr, io.EOF) && !errors.Is(aerr, io.ErrUnexpectedEOF) && !errors.Is(aerr, net.ErrClosed) {
+				return r, fmt.Errorf("acceptTCPMsg: %w", aerr)
+			}
+
+			break
+		}
 	}
 
 	wg.Wait()
@@ -321,6 +422,10 @@ func (f *vc01Fixture) tcp(s *ServerDNS, wire []byte) (r ref.Result, err error) {
 	}
 
 	return r, err
+}
+
+func vc01Frame(wire []byte) []byte {
+	return append(binary.BigEndian.AppendUint16(nil, uint16(len(wire))), wire...)
 }
 
 func (f *vc01Fixture) http(method, target string, body []byte) (r ref.Result, rec *httptest.ResponseRecorder) {
@@ -342,7 +447,12 @@ func (f *vc01Fixture) http(method, target string, body []byte) (r ref.Result, re
 
 func (f *vc01Fixture) quic(wire []byte, prefix, chunk int) (r ref.Result, err error) {
 	in := binary.BigEndian.AppendUint16(nil, uint16(prefix))
-	st := &vc01Stream{in: append(in, wire...), chunk: chunk}
+
+	return f.quicRaw(append(in, wire...), chunk)
+}
+
+func (f *vc01Fixture) quicRaw(stream []byte, chunk int) (r ref.Result, err error) {
+	st := &vc01Stream{in: stream, chunk: chunk}
 	conn := &vc01QConn{}
 	ctx, cancel := f.doq.requestContext()
 	defer cancel()
@@ -384,11 +494,15 @@ func vc01PlainName(n string) bool {
 		}
 	}
 
-	return n != "" && n != "."
+	return n != ""
 }
 
-func vc01JSONTarget(q dns.Question, cd, do, mnemonic, wireCT bool) string {
+func vc01JSONTarget(q dns.Question, cd, do, mnemonic, wireCT bool, decoy []byte) string {
 	v := url.Values{}
+	if decoy != nil {
+		v.Set("dns", base64.RawURLEncoding.EncodeToString(decoy))
+	}
+
 	v.Set("name", q.Name)
 	ts := strconv.Itoa(int(q.Qtype))
 	if s, ok := dns.TypeToString[q.Qtype]; ok && mnemonic && s == strings.ToUpper(s) {
@@ -414,6 +528,9 @@ func vc01JSONTarget(q dns.Question, cd, do, mnemonic, wireCT bool) string {
 
 // vc01Params are the per-case choices that are not part of the input.
 type vc01Params struct {
+	tcpChunk     int  // read granularity of the in-memory TCP connections
+	decoy        bool // DoH requests carry parameters of the other encodings
+	streamFault  string
 	chunk        int
 	prefixDelta  int // 0: correct DoQ length prefix
 	jsonMnemonic bool
@@ -426,6 +543,9 @@ func vc01DrawParams(t *rapid.T) (p vc01Params) {
 		p.prefixDelta = rapid.SampledFrom([]int{-1, 1, 2, -12}).Draw(t, "prefixDelta")
 	}
 
+	p.tcpChunk = rapid.SampledFrom([]int{0, 0, 1, 2, 3, 13}).Draw(t, "tcpChunk")
+	p.decoy = rapid.Bool().Draw(t, "dohDecoy")
+	p.streamFault = rapid.SampledFrom([]string{"", "", "", "tcp-short-frame", "tcp-empty-frame", "doq-two-in-one", "doh-two-dns-params", "doh-bad-method"}).Draw(t, "streamFault")
 	p.jsonMnemonic = rapid.Bool().Draw(t, "jsonMnemonic")
 	p.jsonMethod = rapid.SampledFrom([]string{http.MethodGet, http.MethodGet, http.MethodPost}).Draw(t, "jsonMethod")
 
@@ -488,14 +608,27 @@ func vc01FramingCase(t interface{ Fatalf(string, ...any) }, st *vstat.Stats, f *
 		}
 	}
 
-	r, err := f.tcp(f.dns, wire)
+	r, err := f.tcp(f.dns, vc01Frame(wire), p.tcpChunk)
 	run(ref.TCP, r, err, ref.CheckOpts{})
-	r, err = f.tcp(f.dot.ServerDNS, wire)
+	r, err = f.tcp(f.dot.ServerDNS, vc01Frame(wire), p.tcpChunk)
 	run(ref.DoT, r, err, ref.CheckOpts{})
 
-	r, _ = f.http(http.MethodGet, PathDoH+"?dns="+base64.RawURLEncoding.EncodeToString(wire), nil)
+	// A decoy is another, acceptable query offered through the parameters of
+	// the encodings that are NOT in use; it must be ignored.
+	decoyMsg := (&dns.Msg{}).SetQuestion("k0.decoy.test.", dns.TypeAAAA)
+	decoyMsg.Id = 0xdec0
+	decoyWire, _ := decoyMsg.Pack()
+	b64 := base64.RawURLEncoding.EncodeToString
+	getTarget, postTarget := PathDoH+"?dns="+b64(wire), PathDoH
+	if p.decoy {
+		classes = append(classes, "doh-decoy-params")
+		getTarget += "&name=k0.decoy.test&type=AAAA&ct=" + url.QueryEscape(MimeTypeJSON) + "&do=1"
+		postTarget += "?dns=" + b64(decoyWire) + "&name=k0.decoy.test"
+	}
+
+	r, _ = f.http(http.MethodGet, getTarget, nil)
 	run(ref.DoH.Named("doh-get"), r, nil, ref.CheckOpts{})
-	r, rec := f.http(http.MethodPost, PathDoH, wire)
+	r, rec := f.http(http.MethodPost, postTarget, wire)
 	run(ref.DoH.Named("doh-post"), r, nil, ref.CheckOpts{})
 	if rec.Code == http.StatusOK && rec.Header().Get("Content-Type") != MimeTypeDoH {
 		fail("doh-post", fmt.Errorf("content type %q", rec.Header().Get("Content-Type")))
@@ -521,9 +654,43 @@ func vc01FramingCase(t interface{ Fatalf(string, ...any) }, st *vstat.Stats, f *
 		}
 	}
 
+	// Fault forms of the framing layers: whatever the content, no DNS message
+	// may come back.
+	noMsg := func(tr string, r ref.Result, err error, wantTreatment string) {
+		classes = append(classes, p.streamFault)
+		if err != nil {
+			fail(tr, err)
+		}
+
+		if len(r.Msgs) != 0 || !strings.HasPrefix(r.Treatment, wantTreatment) {
+			fail(tr, fmt.Errorf("%s: %d messages came back, treatment %q (want %q...)", p.streamFault, len(r.Msgs), r.Treatment, wantTreatment))
+		}
+	}
+
+	switch p.streamFault {
+	case "tcp-short-frame":
+		// The announced length exceeds what is sent before FIN.
+		short := binary.BigEndian.AppendUint16(nil, uint16(len(wire)+1+int(ref.Hash(string(wire))%300)))
+		r, err = f.tcp(f.dns, append(short, wire...), p.tcpChunk)
+		noMsg("tcp", r, err, "")
+	case "tcp-empty-frame":
+		r, err = f.tcp(f.dot.ServerDNS, []byte{0, 0}, p.tcpChunk)
+		noMsg("dot", r, err, "closed")
+	case "doq-two-in-one":
+		// RFC 9250, 4.3 (3): more than one query on a stream.
+		r, err = f.quicRaw(append(vc01Frame(wire), vc01Frame(decoyWire)...), chunk)
+		noMsg("doq", r, err, ref.DoQProtocolError)
+	case "doh-two-dns-params":
+		r, _ = f.http(http.MethodGet, PathDoH+"?dns="+b64(decoyWire)+"&dns="+b64(wire), nil)
+		noMsg("doh-get", r, nil, "http-4")
+	case "doh-bad-method":
+		r, _ = f.http(http.MethodPut, PathDoH+"?dns="+b64(decoyWire), decoyWire)
+		noMsg("doh-put", r, nil, "http-4")
+	}
+
 	// DNSCrypt: the encryption layer only hands over decodable single-question
 	// queries.
-	if c.Req != nil && !c.Req.Response && len(c.Req.Question) == 1 {
+	if c.Req != nil && !c.Req.Response && len(c.Req.Question) == 1 && len(wire) >= ref.DNSCryptMinQuery {
 		r, err = f.crypt(vc01LocalUDP, c.Req)
 		run(ref.DNSCryptUDP, r, err, ref.CheckOpts{})
 		r, err = f.crypt(vc01LocalTCP, c.Req)
@@ -563,7 +730,15 @@ func vc01FramingCase(t interface{ Fatalf(string, ...any) }, st *vstat.Stats, f *
 		mn, method := p.jsonMnemonic, p.jsonMethod
 		classes = append(classes, "json")
 
-		r, rec = f.http(method, vc01JSONTarget(q, cd, do, mn, false), nil)
+		var jsonDecoy, jsonBody []byte
+		if p.decoy {
+			jsonDecoy = decoyWire
+			if method == http.MethodPost {
+				jsonBody = decoyWire
+			}
+		}
+
+		r, rec = f.http(method, vc01JSONTarget(q, cd, do, mn, false, jsonDecoy), jsonBody)
 		switch {
 		case jc.Mode == ref.ModeSilent:
 			if rec.Code < 400 {
@@ -589,12 +764,16 @@ func vc01FramingCase(t interface{ Fatalf(string, ...any) }, st *vstat.Stats, f *
 		// The same with ct=application/dns-message: a wire-format answer to the
 		// request the server built itself (its ID is the server's), judged against
 		// the equivalent request's own case.
-		r, _ = f.http(method, vc01JSONTarget(q, cd, do, mn, true), nil)
+		r, _ = f.http(method, vc01JSONTarget(q, cd, do, mn, true, jsonDecoy), jsonBody)
 		_, cl, jerr := ref.Judge(ref.DoH.Named("doh-json-ct-wire"), jc, r, ref.CheckOpts{NoID: true})
 		classes = append(classes, cl...)
 		if jerr != nil {
 			fail("doh-json-ct-wire", jerr)
 		}
+	}
+
+	if errs := f.metrics.take(); len(errs) > 0 {
+		fail("metrics/disposer", fmt.Errorf("%s", strings.Join(errs, "\n")))
 	}
 
 	st.Case("", classes...)
@@ -605,16 +784,79 @@ func vc01FramingCase(t interface{ Fatalf(string, ...any) }, st *vstat.Stats, f *
 
 func TestVerifC01Framing(t *testing.T) {
 	st := vstat.New("C01", "inpkg.framing",
-		"rapid inputs (as in inpkg.accept) through the real receive/frame/respond code of every transport over in-memory connections: ServerDNS.acceptUDPMsg, acceptTCPMsg (plain and DoT server), httpHandler.ServeHTTP (GET, POST, JSON API, JSON with ct=dns-message), ServerQUIC.serveQUICStream (correct and wrong length prefix, chunked reads), dnsCryptHandler.ServeDNS (udp, tcp); oracle = documented per-transport treatment + reference handler, and pairwise agreement of all complete answers; non-trivial as in inpkg.accept; distinct by (transport, wire bytes)",
+		"rapid inputs (as in inpkg.accept) through the real receive/frame/respond code of every transport over in-memory connections: ServerDNS.acceptUDPMsg, acceptTCPMsg (plain and DoT server), httpHandler.ServeHTTP (GET, POST, JSON API, JSON with ct=dns-message), ServerQUIC.serveQUICStream (correct and wrong length prefix, chunked reads), dnsCryptHandler.ServeDNS (udp, tcp); servers configured as the real stack does (recycling disposer that takes disposed messages apart, metrics listener that reads request/response and records recovered panics, request contexts with a deadline; the handler requires ServerInfo and RequestInfo); TCP reads in 1-13 octet chunks; DoH requests with decoy parameters of the other encodings; framing faults (short / empty TCP frame, two queries in one DoQ stream, two dns parameters, PUT); every other valid case is followed by a near miss (one of: letter case, qtype, qclass, label, kind, ID only, RD, CD, EDNS, DO, verbatim) through the same pooled servers; queries of exactly 511/512/513 octets, root and one-label names; oracle = documented per-transport treatment + reference handler, and pairwise agreement of all complete answers; non-trivial as in inpkg.accept; distinct by (transport, wire bytes)",
 		"verdict-accept", "undecodable-past-header", "verdict-response-bit", "verdict-notimp", "verdict-formerr", "kind-handler-error",
 		"kind-silent", "kind-large", "truncated-on-udp", "truncated-on-dnscrypt-udp", "cross-transport-compared", "json", "req-padding", "req-keepalive",
-		"doq:no-message", "doq:servfail-or-none", "doq-bad-prefix", "udp-oversize-query", "mixed-case-name", "max-length-name")
+		"doq:no-message", "doq:servfail-or-none", "doq-bad-prefix", "udp-oversize-query", "mixed-case-name", "max-length-name",
+		"near-miss", "near-miss-case", "tcp-burst", "doh-decoy-params", "tcp-short-frame", "tcp-empty-frame", "doq-two-in-one", "doh-two-dns-params",
+		"root-name", "one-label-name", "query-size-511", "query-size-512", "query-size-513", "req-padding+keepalive", "doq:fallback-servfail")
 	st.Finish(t)
 
 	f := vc01NewFixture()
 	rapid.Check(t, func(t *rapid.T) {
 		in := ref.DrawInput(t)
 		vc01FramingCase(t, st, f, in, vc01DrawParams(t))
+		if in.Gen == "valid" && rapid.Bool().Draw(t, "followUp") {
+			// The same servers (pooled buffers, pooled workers) next see a query
+			// that differs in exactly one component.
+			m2, what := ref.DrawNearMiss(t, in.Msg)
+			if m2.Id != in.Msg.Id {
+				// Out of the range of the burst's IDs (base+1 .. base+6).
+				m2.Id = in.Msg.Id + 100
+			}
+			w2, err := m2.Pack()
+			if err != nil {
+				t.Fatalf("harness: near miss does not pack: %v", err)
+			}
+
+			st.Class("near-miss", "near-miss-"+what)
+			vc01FramingCase(t, st, f, ref.Input{Wire: w2, Gen: "near:" + what, Msg: m2}, vc01DrawParams(t))
+
+			// A burst of near misses pipelined on one connection (the messages
+			// are handed to the worker pool while the next one is being read).
+			burst, _ := ref.DrawBurst(t, in.Msg, 6)
+			cs := []*ref.Case{}
+			var stream []byte
+			for _, bm := range append([]*dns.Msg{in.Msg, m2}, burst...) {
+				bw, berr := bm.Pack()
+				if berr != nil {
+					t.Fatalf("harness: near miss does not pack: %v", berr)
+				}
+
+				bc := ref.Classify(bw)
+				if k, _, _ := bc.Expect(ref.TCP); k == ref.MustReply {
+					cs = append(cs, bc)
+					stream = append(stream, vc01Frame(bw)...)
+				}
+			}
+
+			if len(cs) >= 2 {
+				st.Class("tcp-burst")
+				for _, tr := range []ref.Transport{ref.TCP, ref.DoT} {
+					srv := f.dns
+					if tr.Name == "dot" {
+						srv = f.dot.ServerDNS
+					}
+
+					r, rerr := f.tcp(srv, stream, rapid.SampledFrom([]int{0, 1, 5}).Draw(t, "burstChunk"))
+					if rerr == nil {
+						rerr = ref.MatchReplies(len(cs), r.Msgs, func(int) bool { return true }, func(i int, msg []byte) error {
+							_, _, jerr := ref.Judge(tr, cs[i], ref.Result{Msgs: [][]byte{msg}}, ref.CheckOpts{})
+
+							return jerr
+						})
+					}
+
+					if rerr != nil {
+						t.Fatalf("transport %s, burst of %d pipelined near misses of %s:\n%v", tr.Name, len(cs), ref.Hex(in.Wire), rerr)
+					}
+				}
+
+				if errs := f.metrics.take(); len(errs) > 0 {
+					t.Fatalf("metrics/disposer during a burst: %s", strings.Join(errs, "\n"))
+				}
+			}
+		}
 	})
 }
 
